@@ -71,8 +71,10 @@ def shape_ndim(cx, s):
         return None
     if s.only('num', 'bool'):
         return 1
-    if s.only('tuple', 'list') and s.items is not None:
+    if s.only('tuple', 'list') and s.items is not None and s.elem is None:
         return len(s.items)
+    if s.only('list') and s.lo is not None:
+        return s.lo
     if s.only('tuple', 'list'):
         n = cx.static_len(s)
         return n
@@ -150,7 +152,7 @@ def reduction(cx, node, args, kw, recv=None):
             res = AV(['arr'] if (x.ndim is not None and x.ndim >= 2) else ['arr', 'num'], ndim=nd)
     elif x.ndim is None and not x.only('arr', 'list', 'tuple', 'num', 'bool'):
         res = AV(['num', 'arr'])
-    if x.objarr or (x.may('list', 'tuple') and not x.only('arr')):
+    if x.objarr:
         # reductions over object arrays / lists of objects may hand back one of the elements
         e = cx.elem_of(x)
         if not e.immutable:
@@ -276,8 +278,22 @@ F('numpy.diagonal', 'view-of(0)', view_of(0))
 # numpy: fresh results
 F('numpy.concatenate numpy.hstack numpy.vstack numpy.stack numpy.dstack numpy.column_stack numpy.block', 'fresh',
   fresh_arr())
-F('numpy.kron numpy.outer numpy.einsum numpy.tensordot numpy.tile numpy.repeat numpy.cross', 'fresh', fresh_arr())
-F('opt_einsum.contract', 'fresh', fresh_arr())
+def _einsum(cx, node, args, kw):
+    nd = None
+    if args and args[0].has_const() and isinstance(args[0].const, str):
+        s = args[0].const.replace(' ', '')
+        if '...' not in s:
+            if '->' in s:
+                nd = len(s.split('->')[1])
+            else:
+                ins = s.split(',')
+                letters = ''.join(ins)
+                nd = len([c for c in sorted(set(letters)) if letters.count(c) == 1])
+    return arr(nd) if nd != 0 else AV(['arr', 'num'], ndim=0)
+
+
+F('numpy.einsum opt_einsum.contract', 'fresh', _einsum)
+F('numpy.kron numpy.outer numpy.tensordot numpy.tile numpy.repeat numpy.cross', 'fresh', fresh_arr())
 
 
 def _matmul(cx, node, args, kw):
@@ -745,8 +761,8 @@ ARR_ATTR = {
     'real': ('may-view-of(recv)', lambda cx, r: cx.view(r, r.ndim, '.real', may=True)),
     'imag': ('may-view-of(recv)', lambda cx, r: cx.view(r, r.ndim, '.imag', may=True)),
     'flat': ('view-of(recv)', lambda cx, r: cx.view(r, 1, '.flat')),
-    'shape': ('fresh', lambda cx, r: AV(['tuple'], elem=num(lo=0), minlen=r.ndim or 0,
-                                       items=[num(lo=0)] * r.ndim if r.ndim is not None else None)),
+    'shape': ('fresh', lambda cx, r: (AV(['tuple'], minlen=r.ndim, items=[num(lo=0)] * r.ndim)
+                                      if (r.ndim is not None and r.only('arr')) else AV(['tuple'], elem=num(lo=0)))),
     'size': ('fresh', lambda cx, r: num(lo=0)),
     'ndim': ('fresh', lambda cx, r: num(r.ndim) if (r.ndim is not None and r.only('arr')) else num(lo=0)),
     'dtype': ('fresh', lambda cx, r: TYPE),
